@@ -19,7 +19,7 @@ enum { K_SCEN = VC_USER, K_LOAD, K_COPY, K_SALLOC, K_BUILD, K_GROW, K_SINGLE, K_
 enum { SC_LOAD = 1, SC_COPY, SC_SALLOC, SC_BUILDER, SC_GROW };
 
 static unsigned dfs_k, cdepth = 2;
-static uint64_t dfs_units, con_units = 128, misc_units = 1;
+static uint64_t dfs_units, con_units = 256, misc_units = 1;
 static vf_sb sb;
 
 /* schedules */
@@ -359,7 +359,7 @@ static void seq_cb(const vf_seq* s, void* ctx) {
 static void constructed_unit(uint64_t u) {
   vt_choices ch;
   memset(&ch, 0, sizeof ch);
-  unsigned want[3] = {(unsigned)(u / 64), (unsigned)(u / 8 % 8), (unsigned)(u % 8)};
+  unsigned want[3] = {(unsigned)(u / 128), (unsigned)(u / 16 % 8), (unsigned)(u % 16)};
   for (int i = 0; i < 3; i++) ch.c[i] = (uint8_t)want[i];
   ch.fixed = 3;
   va_reset();
